@@ -292,15 +292,19 @@ def run_slow(case):
             viol.append({"mechanism": "init-failed-on-plain-console", "detail": {}})
             return
         subs = []
+        # (all of them busy one after the other must stay well inside the 330 s after which
+        # an unanswered heartbeat - its response is queued behind them - resets the link)
+        n_ent = sum(2 + len(ac.zones) for ac in w.at.air_conditioners)
+        slow = min(case["delay"], 120.0 / max(1, n_ent * (case["n"] + 1)))
         for ac in w.at.air_conditioners:
             for attach in (ac.subscribe, ac.subscribe_ac_state):
                 s = H.Sub(log, f"slow-ac{ac.ac_id}", hashv=rnd.getrandbits(20))
-                s.delay = case["delay"]
+                s.delay = slow
                 attach(s)
                 subs.append(s)
             for z in ac.zones:
                 s = H.Sub(log, f"slow-zone{z.zone_id}", hashv=rnd.getrandbits(20))
-                s.delay = case["delay"]
+                s.delay = slow
                 z.subscribe(s)
                 subs.append(s)
         frames = []
@@ -318,7 +322,7 @@ def run_slow(case):
                 fid = first["id"] if use_zones else first["status"]["ac"]
                 for s in subs:
                     if s.name == (f"slow-zone{fid}" if use_zones else f"slow-ac{fid}"):
-                        s.delay = case["delay"]
+                        s.delay = slow
                 for rnd_first in (True, False):
                     for e in ents:
                         if e is first and not rnd_first:
@@ -344,7 +348,7 @@ def run_slow(case):
             w.console.send(c, raw)
             await asyncio.sleep(case["gap"])
         # let every callback finish (each frame can cost several delays in a row)
-        await asyncio.sleep(case["delay"] * (len(subs) + 2) * (case["n"] + 1) + 30.0)
+        await asyncio.sleep(slow * (len(subs) + 2) * (case["n"] + 1) + 30.0)
         await quiesce(loop)
         w.feed()
         dd = RM.diff(w.model.expected(), H.snapshot(w.at))
@@ -354,7 +358,7 @@ def run_slow(case):
             viol.append({"mechanism": "getter-differs-from-latest-report-with-slow-subscribers:"
                          + path.split(".")[-1],
                          "detail": {"path": path, "expected": ev, "got": gv,
-                                    "frames": frames[-3:], "delay": case["delay"]}})
+                                    "frames": frames[-3:], "delay": slow}})
         if w.conn() is None or len(net.conns) != 1:
             viol.append({"mechanism": "connection-lost-while-subscribers-were-busy",
                          "detail": {"connections": len(net.conns)}})
